@@ -17,20 +17,21 @@ inductive Tree where
   | node (id : Nat) (children : List Tree)
 
 mutual
-/-- `Real place format t out ins lvs`: the tree `t` realizes as the token list `out` -/
+/-- `Real place format t out ins lvs cats`: the tree `t` realizes as the token list `out`; `ins` = the inputs of the
+    `doElision` calls, `lvs` = the leaves, `cats` = (node, concatenated children) handed to `place` -/
 inductive Real (place format : Nat → List Tok → List Tok) :
-    Tree → List Tok → List (List Tok) → List (List Tok) → Prop
-  | leaf (ts : List Tok) : Real place format (.leaf ts) ts [] [ts]
-  | node (id : Nat) (cs : List Tree) (cat out : List Tok) (ins lvs : List (List Tok)) :
-      RealAll place format cs cat ins lvs → doElisionFr (place id cat) = .ok out →
-      Real place format (.node id cs) (format id out) (place id cat :: ins) lvs
+    Tree → List Tok → List (List Tok) → List (List Tok) → List (Nat × List Tok) → Prop
+  | leaf (ts : List Tok) : Real place format (.leaf ts) ts [] [ts] []
+  | node (id : Nat) (cs : List Tree) (cat out : List Tok) (ins lvs : List (List Tok)) (cats : List (Nat × List Tok)) :
+      RealAll place format cs cat ins lvs cats → doElisionFr (place id cat) = .ok out →
+      Real place format (.node id cs) (format id out) (place id cat :: ins) lvs ((id, cat) :: cats)
 /-- the concatenation of the realizations of a list of children -/
 inductive RealAll (place format : Nat → List Tok → List Tok) :
-    List Tree → List Tok → List (List Tok) → List (List Tok) → Prop
-  | nil : RealAll place format [] [] [] []
-  | cons (c : Tree) (cs : List Tree) (a b : List Tok) (i1 i2 l1 l2 : List (List Tok)) :
-      Real place format c a i1 l1 → RealAll place format cs b i2 l2 →
-      RealAll place format (c :: cs) (a ++ b) (i1 ++ i2) (l1 ++ l2)
+    List Tree → List Tok → List (List Tok) → List (List Tok) → List (Nat × List Tok) → Prop
+  | nil : RealAll place format [] [] [] [] []
+  | cons (c : Tree) (cs : List Tree) (a b : List Tok) (i1 i2 l1 l2 : List (List Tok)) (c1 c2 : List (Nat × List Tok)) :
+      Real place format c a i1 l1 c1 → RealAll place format cs b i2 l2 c2 →
+      RealAll place format (c :: cs) (a ++ b) (i1 ++ i2) (l1 ++ l2) (c1 ++ c2)
 end
 
 /-- what `format` may do to a token: anything that keeps its first word, whether other words follow it in the
@@ -55,6 +56,10 @@ def InvIn (l : List Tok) : Prop := TokWF l ∧ bwdFromFr false l = true ∧ Last
 /-- `place` may insert, delete and permute tokens but never separates a token that a lower level elided /
     contracted from the word that licenses it (and what it inserts is well-formed and fresh) -/
 def PlaceOK (place : Nat → List Tok → List Tok) : Prop := ∀ id l, InvIn l → InvIn (place id l)
+
+/-- the same, only at the lists actually handed to `place` in a given fold -/
+def PlaceOKAt (place : Nat → List Tok → List Tok) (cats : List (Nat × List Tok)) : Prop :=
+  ∀ p ∈ cats, InvIn p.2 → InvIn (place p.1 p.2)
 
 /-- `format` only prefixes / suffixes material that `sepWordREC` skips -/
 def FormatOK (format : Nat → List Tok → List Tok) : Prop := ∀ id l, All2 SameView l (format id l)
